@@ -21,7 +21,7 @@ SPEC = dict(
     assumptions=["expected message = template with placeholders replaced textually (own implementation)",
                  "templates contain no braces other than documented placeholders; OLD/NEW occur as separate words",
                  "real git: only messages that git's own whitespace/comment clean-up leaves unchanged are read back"],
-    required=["real_git_leading_dash_paths", "real_git_pathspec_neighbours", "real_git_push_runs", "real_git_push_from_branch_tracking_a_local_branch", "real_git_push_with_column_ui_always", "hg_runs_with_blank_in_tmpdir", "real_git_push_with_branch_named_like_the_new_tag", "real_git_push_to_tracked_remote_not_named_origin", "fake_git_runs", "fake_hg_runs", "real_git_runs", "k12_evaluations", "class:squote", "class:dquote",
+    required=["real_git_leading_dash_paths", "real_git_pathspec_neighbours", "real_git_push_runs", "real_git_push_from_branch_tracking_a_local_branch", "real_git_push_with_column_ui_always", "hg_runs_with_blank_in_tmpdir", "real_git_runs_with_a_global_pathspec_switch_exported", "real_git_push_with_branch_named_like_the_new_tag", "real_git_push_to_tracked_remote_not_named_origin", "fake_git_runs", "fake_hg_runs", "real_git_runs", "k12_evaluations", "class:squote", "class:dquote",
               "class:backslash", "class:newline", "class:leading-dash", "class:dollar", "class:backtick",
               "hostile_paths_checked", "templates_from_config", "config_templates_with_OLD_NEW_words",
               "templates_from_setup_cfg", "ini_templates_with_percent", "empty_tag_message_from_config"],
@@ -404,6 +404,10 @@ def run_real(ctx, case):
                 args.insert(1, "--allow-dirty")
             ctx.count("real_git_push_runs")
         env = dict(GIT_ENV, HOME=d)
+        if case["seed"] % 7 == 2:
+            # a user who has exported one of git's global pathspec switches: the configured paths are staged all the same
+            env[R.choice(["GIT_ICASE_PATHSPECS", "GIT_GLOB_PATHSPECS", "GIT_NOGLOB_PATHSPECS"])] = "1"
+            ctx.count("real_git_runs_with_a_global_pathspec_switch_exported")
         res = harness.invoke(args, cwd=d, env=env)
         ctx.count("real_git_runs")
         for c in used_c | used_t:
